@@ -111,6 +111,7 @@ void vf_run_case(Ctx& c, uint64_t index) {
     if (!check_buffer(ser, full, cap, false, why)) { c.violation("buffer-rule", why, wit); break; }
   }
   { std::ostringstream os; size_t n = AJ::serializeMsgPack(doc, os); if (os.str() != full || n != full.size()) c.violation("ostream-differs", "content or count differs", wit); }
+  { std::ostringstream os; os.width(8); os.fill('*'); os.setf(std::ios::hex, std::ios::basefield); size_t n = AJ::serializeMsgPack(doc, os); if (os.str() != full || n != full.size()) c.violation("ostream-differs", "std::ostream with width/fill/flags set: content or count differs", wit); }
   { CollectWriter w; size_t n = AJ::serializeMsgPack(doc, w); if (w.data != full || n != full.size()) c.violation("custom-writer-differs", "content or count differs", wit); }
   { size_t lim = (size_t)r.below(full.size() + 2); ShortWriter w(lim); size_t n = AJ::serializeMsgPack(doc, w);
     if (n != w.data.size() || w.data != full.substr(0, std::min(lim, full.size()))) c.violation("short-writer-count", "returned " + std::to_string(n) + ", accepted " + std::to_string(w.data.size()), wit); }
